@@ -22,6 +22,9 @@ def run(ctx):
                 "accepted_configurations_used_in_child_process": out["accepted_and_used"]})
     import reloadfam
     reloadfam.run(ctx)
+    # ... and every component follows: after chains of reloads the hooks caller announces the directory the agent serves
+    import c19
+    cov["hook_reload_scenarios"] = c19.reload_chain_leg(ctx, "C18")
     for e in res["edges"][:2]:
         ctx.sample(e)
     cov["rule"] = ("every Config case (<= 2 deviations from a good document) rendered as YAML through NewDirFromConfig; every accepted "
